@@ -62,6 +62,9 @@ func (c Config) next(i int) int {
 			return n
 		}
 		for x := int(c[i+7]); x > 0 && n < len(c) && n > 0; x-- {
+			if n+1 >= len(c) {
+				return -1
+			}
 			n += int(c[n]) + int(c[n+1]) + 2
 		}
 		return n
@@ -283,6 +286,9 @@ loop:
 			}
 			if c[i+7] > 0 {
 				for j := 0; v < n && q < n && j < n; {
+					if v+1 >= n {
+						return -1, xerr.Wrap("wc2", ErrInvalidSetting)
+					}
 					q, j = v+2, int(c[v])+v+2
 					if v = int(c[v+1]) + j; q == j || j > n || q > n || v > n || v < j || j < q || q < i || j < i || v < i {
 						return -1, xerr.Wrap("wc2", ErrInvalidSetting)
@@ -553,6 +559,9 @@ loop:
 			if c[i+7] > 0 {
 				t.Headers = make(map[string]wc2.Stringer, c[i+7])
 				for j := 0; v < n && q < n && j < n; {
+					if v+1 >= n {
+						return nil, -1, 0, xerr.Wrap("wc2", ErrInvalidSetting)
+					}
 					q, j = v+2, int(c[v])+v+2
 					if v = int(c[v+1]) + j; q == j || q > n || j > n || v > n || v < j || j < q || q < i || j < i || v < i {
 						return nil, -1, 0, xerr.Wrap("wc2", ErrInvalidSetting)
